@@ -715,8 +715,8 @@ Section Kinds.
     rewrite (bind_ok _ _ _ _ _ (read_var_eval v r1 kd f ctx s1 tl Hk Hp' Hx Rl)). cbv beta iota zeta.
     set (x := N.succ_pos v) in *.
     assert (Core : forall con, (forall g' s', wf s' -> head s' x = Some tl -> notok (check_one (gfix g') asp x (con x) s')) ->
-              notok ((add_constraint x (con x);;; add_constraint x (con x));;;
-                     (unify G asp x x;;; g_check G asp x);;; unify_option G asp None None) s1).
+              notok (((add_constraint x (con x);;; add_constraint x (con x));;;
+                      (unify G asp x x;;; g_check G asp x);;; unify_option G asp None None) s1)).
     { intros con Hc. apply bind_cases; [prs|assumption|]. intros u8 s8 H8 W8 E8.
       apply bind_inv in H8 as (u9 & s9 & H9 & H8).
       destruct (add_constraint_spec _ _ _ _ _ W1 H9) as (W9 & E9 & Hd9 & _ & C9 & _).
